@@ -64,11 +64,13 @@ ASSUMPTIONS = [
     "'finite gradients' is approximated by the guarded-division/guarded-sqrt criterion (every divisor non-zero and every sqrt argument positive on every where-branch, for all inputs of the domain) and a bounded real-JAX jax.grad stand-in; differentiability itself is not proved",
     "'cell without an interface' is read as: finite-difference gradient zero, or first-order level-set distance |eta-rho|/|grad rho| >= 0.55 dx (the smoothing radius stated in the function's documentation)",
     "smoothed projection: both in-plane extents >= 2 (jnp.gradient raises otherwise); monotonicity of the smoothed projection is not claimed by the property and not checked",
+    "jnp.gradient is modelled by vc.array.gradient (second-order central differences inside, one-sided first-order differences at the ends, unit spacing), cross-checked against real jnp.gradient on random arrays; inside the smoothed-projection tasks its results are referred to by name (fresh arrays carrying their defining equation) so that the solver sees short terms",
+    "the agreement clause is proved through a chain of small lemmas: real-arithmetic steps as universally quantified lemmas in a fresh solver, instantiated on terms the code evaluated (its divisors and its sqrt application); the chain is additionally exercised by a bounded real-JAX comparison (labelled bounded)",
 ]
-MIN_OBLIGATIONS = {"quick": 100, "thorough": 100}
+MIN_OBLIGATIONS = {"quick": 200, "thorough": 200}
 LEVEL_TEXT = "Deductive proof over all array shapes/values, all thresholds in [0,1], all positive voxel sizes and every beta in {0} U (0,inf) U {inf} of the range, monotonicity, fixed-point, limit-case and agreement clauses of the real projection code; tanh/sqrt axiomatised"
 LEVEL_NOTE = "real arithmetic; finite gradients only via the guarded-division criterion plus a bounded real-JAX gradient stand-in (labelled bounded)"
-BOUNDED_RULE = "bounded stand-in: real tanh_projection / smoothed_projection under real JAX, value and jax.grad finite on an enumerated grid of beta (incl. 0 and inf), eta (incl. 0 and 1), arrays (random, uniform, ramps through eta, binary), dtypes and voxel sizes"
+BOUNDED_RULE = "bounded stand-in: real TanhProjection / SubpixelSmoothedProjection under real JAX on an enumerated grid of beta (incl. 0 and inf), eta (incl. 0 and 1), arrays (random, uniform, ramps through eta, binary, near-uniform, 2x2), dtypes (float64, float32) and voxel sizes: value and jax.grad finite; float64 smoothed output equal to the plain projection in interface-free cells"
 
 
 # ---------------------------------------------------------------------------------------
@@ -138,12 +140,18 @@ class _NamingJnp:
             out.append(named)
         return out if many else out[0]
 
-BETA_CLASSES = {"beta_pos": None, "beta_0": 0.0, "beta_inf": float("inf")}
+# beta_pos: arbitrary finite positive real; beta_nonneg: arbitrary real >= 0 whose being zero is decided
+# inside the arrays (the situation of a traced / jnp-scalar beta: both where-branches are live)
+BETA_CLASSES = {"beta_pos": None, "beta_nonneg": None, "beta_0": 0.0, "beta_inf": float("inf")}
 
 
 def _beta(cls, inp):
     if cls == "beta_pos":
         b = sym_real("beta", lo_strict=0)
+        inp.scalar("beta", b)
+        return b
+    if cls == "beta_nonneg":
+        b = sym_real("beta", lo=0)
         inp.scalar("beta", b)
         return b
     inp.note("beta", str(BETA_CLASSES[cls]))
@@ -202,6 +210,28 @@ def _valid_fresh(hyps, goal, timeout_ms=5000):
     return sv.check() == z3.unsat
 
 
+def _quick_prove(c, name, goal, extra_hyps=(), timeout_ms=10000):
+    """One in-context solver query with a fixed time limit (same assumptions, path condition and
+    solver as Ctx.prove, but none of its escalation stages): the lemma chain of the smoothed
+    projection consists of steps that are immediate when they hold, so an undecided step is
+    recorded as `unknown` right away instead of being retried for minutes.  unsat -> discharged,
+    sat -> refuted (model kept for the witness), anything else -> unknown (check undecided)."""
+    import time
+
+    from vc.core import Obligation, zbool
+
+    g = goal.z if hasattr(goal, "z") else goal
+    if isinstance(g, bool):
+        return c.prove(name, g, extra_hyps=extra_hyps)
+    t0 = time.time()
+    hz = [zbool(h) for h in extra_hyps]
+    r, model, _smt2 = c._z3_check(hz, z3.Not(g), timeout_ms)
+    status = "discharged" if r == z3.unsat else "refuted" if r == z3.sat else "unknown"
+    path = "".join("T" if d else "F" for d in c.decisions)
+    c.session.record(Obligation(name, status, "z3(single query)", (time.time() - t0) * 1e3, path, model=model, detail="" if status != "unknown" else "unknown/timeout", tag="abstracted"))
+    return status == "discharged"
+
+
 def _nra_lemma(c, name, nvars, build, inst):
     """Prove  forall reals v1..vn: /\\ hyps(v) => concl(v)  in a FRESH solver (pure nonlinear real
     arithmetic, no context), record the outcome as an obligation and, when valid, assume the instance
@@ -254,6 +284,7 @@ def _tanh_body(cls, via):
         out = A.asarray(out)
         if not prove_same_shape("tanh/post:shape_preserved", out, x):
             return
+        c.prove("tanh/post:shape_preserved", True)
         i, hi = _generic(shape, "i")
         j, hj = _generic(shape, "j")
         xi, xj = x.at_index(i), x.at_index(j)
@@ -265,6 +296,8 @@ def _tanh_body(cls, via):
         c.prove("tanh/post:fixes_1", v_eq(oi, 1), extra_hyps=hi + inside + [_z(v_eq(xi, 1))])
         if cls == "beta_0":
             c.prove("tanh/post:beta_0_is_clipping", v_eq(oi, sym_min(sym_max(xi, 0), 1)), extra_hyps=hi)
+        if cls == "beta_nonneg":
+            c.prove("tanh/post:beta_0_is_clipping", v_eq(oi, sym_min(sym_max(xi, 0), 1)), extra_hyps=hi + [_z(v_eq(beta, 0))])
         if cls == "beta_inf":
             c.prove("tanh/post:beta_inf_is_1_above_threshold", v_eq(oi, 1), extra_hyps=hi + [_z(xi > eta)])
             c.prove("tanh/post:beta_inf_is_0_below_threshold", v_eq(oi, 0), extra_hyps=hi + [_z(xi < eta)])
@@ -333,6 +366,7 @@ def _smoothed_body(cls, vertical):
         plain = A.asarray(P.tanh_projection(rho, beta, eta))
         if not prove_same_shape("smoothed/post:shape_preserved", out, rho):
             return
+        c.prove("smoothed/post:shape_preserved", True)
         idx, hyps = _generic(shape, "i")
         r = rho.at_index(idx)
         out.at_index(idx)  # evaluates the code's result (and reads the named gradients) at idx
@@ -354,7 +388,7 @@ def _smoothed_body(cls, vertical):
         def cut(name, g, hy=()):
             """prove g under hy (+ index range); if discharged, make it available as a lemma"""
             hz = list(hyps) + [_z(h) for h in hy]
-            if c.prove(name, g, extra_hyps=hz):
+            if _quick_prove(c, name, g, extra_hyps=hz):
                 ctx().assume(z3.Implies(z3.And(*hz) if hz else z3.BoolVal(True), _z(g)))
                 return True
             return False
@@ -414,7 +448,7 @@ def _smoothed_body(cls, vertical):
                 )
                 cut("smoothed/lemma:distance_to_level_set>=R_smoothing", abs(U) >= R_t, far)
         cut("smoothed/post:equals_plain[level_set_outside_smoothing_radius]", goal, far)
-        c.prove("smoothed/post:equals_plain_projection_where_no_interface", goal, extra_hyps=hyps + [_z(no_interface)])
+        _quick_prove(c, "smoothed/post:equals_plain_projection_where_no_interface", goal, extra_hyps=hyps + [_z(no_interface)])
         _prove_guards(c, "smoothed/", n_div_min=3)
 
     return body
@@ -440,6 +474,20 @@ def _bounded_arrays(rng, eta, dtype):
         "2x2": rng.uniform(0, 1, size=(2, 2)),
     }
     return {k: v.astype(dtype) for k, v in out.items()}
+
+
+def _agreement_deviation(val2d, rho2d, beta, eta):
+    """max |smoothed - plain| over the cells that have no interface by a clear margin (the margin
+    keeps floating-point ties at the radius out of the comparison)"""
+    import numpy as np
+
+    plain, _ = _real_case("tanh", beta, eta, rho2d, None)
+    gx, gy = np.gradient(rho2d)
+    gg = gx * gx + gy * gy
+    no_if = (gg == 0) | ((eta - rho2d) ** 2 >= 0.55**2 * gg * (1 + 1e-6))
+    if not no_if.any():
+        return 0.0, 0
+    return float(np.max(np.abs(val2d - plain)[no_if])), int(no_if.sum())
 
 
 def _bounded_grid(tier):
@@ -482,6 +530,9 @@ def _bounded_body(tier, which):
                     except Exception as e:  # noqa: BLE001
                         ok, detail = False, f"{type(e).__name__}: {str(e)[:160]}"
                     c.bounded(f"bounded/{which}:value_and_gradient_finite", ok, case=case, witness={"notes": {"case": case, "detail": detail}})
+                    if which == "smoothed" and dt == "float64" and not detail:
+                        dev, n_cells = _agreement_deviation(np.asarray(val)[:, 0, :], np.asarray(arr, dtype=np.float64), beta, eta)
+                        c.bounded("bounded/smoothed:equals_plain_projection_where_no_interface", dev <= 1e-9, case=case, witness={"notes": {"case": case, "detail": f"max deviation {dev} over {n_cells} interface-free cells"}})
 
     return body
 
@@ -495,6 +546,8 @@ def tasks(tier, seed):
     out = {}
     for cls in BETA_CLASSES:
         out[f"tanh/{cls}/via_class"] = Task(_tanh_body(cls, "class"))
+        if cls == "beta_nonneg":
+            continue
         for vertical in (0, 1, 2):
             out[f"smoothed/{cls}/vertical{vertical}"] = Task(_smoothed_body(cls, vertical), axioms=AXIOMS_SMOOTHED)
     out["tanh/beta_pos/via_function"] = Task(_tanh_body("beta_pos", "function"))
@@ -545,13 +598,16 @@ def replay(key, obligation, witness):
             val, g = _real_case(case["fn"], float(case["beta"]), case["eta"], arr, voxel)
         except Exception as e:  # noqa: BLE001
             return True, f"{case}: raised {type(e).__name__}: {e}"
+        if "equals_plain" in obligation:
+            dev, n_cells = _agreement_deviation(val, np.asarray(arr, dtype=np.float64), float(case["beta"]), case["eta"])
+            return dev > 1e-9, f"{case}: real smoothed vs plain projection, max deviation {dev} over {n_cells} interface-free cells"
         bad = (~np.isfinite(val)).sum(), (~np.isfinite(g)).sum()
         return (bad[0] + bad[1]) > 0, f"{case}: non-finite values {bad[0]}, non-finite gradient entries {bad[1]}"
     sc = w.get("scalars", {})
     cls = notes.get("class", "beta_pos")
     try:
         eta = float(sc["eta"])
-        beta = float(sc["beta"]) if cls == "beta_pos" else BETA_CLASSES[cls]
+        beta = float(sc["beta"]) if cls in ("beta_pos", "beta_nonneg") else BETA_CLASSES[cls]
     except Exception as e:  # noqa: BLE001
         return False, f"witness incomplete: {e}"
     wa = witness_arrays_to_numpy(w)
@@ -572,7 +628,7 @@ def replay(key, obligation, witness):
             probs.append("decreasing")
         if 0 < eta < 1 and (abs(val[xs == 0.0][0]) > 1e-12 or abs(val[xs == 1.0][0] - 1) > 1e-12):
             probs.append("does not fix 0/1")
-        if cls == "beta_0" and np.max(np.abs(val - np.clip(xs, 0, 1))) > 1e-12:
+        if beta == 0 and np.max(np.abs(val - np.clip(xs, 0, 1))) > 1e-12:
             probs.append("beta=0 is not clipping")
         if cls == "beta_inf" and np.any(np.abs(val[xs != eta] - (xs[xs != eta] > eta)) > 1e-12):
             probs.append("beta=inf is not the step")
